@@ -1,6 +1,6 @@
 """R-CRC-TWINS: several folding CRC kernels exist twice, as an SSE (legacy-encoded) version and as its instruction-by-instruction AVX (VEX-encoded) translation; the dispatcher
 hands out one or the other depending on the CPU, and on any given machine only one of the two is ever run.  Both have to compute the same function, and for these pairs
-that is visible in the code: the sequence of (mnemonic with the v prefix dropped, immediate operands) is identical - for three pairs over all instructions, for the gzip
+that is visible in the code: the multiset of (mnemonic with the v prefix dropped, immediate operands) is identical - for three pairs over all instructions, for the gzip
 pair (whose main loop was rescheduled for three-operand instructions) over the instructions that carry an immediate: byte-shift counts, PCLMULQDQ selectors, length
 comparisons, pointer steps.  A twin that deviates is reported at the first difference.  Sibling agreement, not a proof of the CRC."""
 import re, difflib
@@ -29,7 +29,7 @@ def skeleton(u, f, imm_only):
 
 def check(rep, floor=4):
     R = rep.rule('R-CRC-TWINS', 'the SSE and AVX versions of the same folding CRC kernel (crc16_t10dif_01/_02, crc32_ieee_01/_02, crc16_t10dif_copy_by4/_by4_02: every instruction; crc32_gzip_refl_by8/_by8_02: every '
-                 'instruction with an immediate) agree in the sequence of (mnemonic without the v prefix, immediate operands): byte-shift counts, carry-less-multiply selectors, length comparisons and pointer steps '
+                 'instruction with an immediate) agree in the multiset of (mnemonic without the v prefix, immediate operands): byte-shift counts, carry-less-multiply selectors, length comparisons and pointer steps '
                  'of the variant the build host never runs are those of its twin', floor=floor, unit='twin pairs')
     units = asmdb.units('default')
     F = {}
@@ -45,14 +45,18 @@ def check(rep, floor=4):
             ka, kb = [x for x, _ in sa], [x for x, _ in sb]
             if len(ka) < 20:
                 raise AnalysisBroken('R-CRC-TWINS: %s has only %d skeleton entries' % (a, len(ka)))
-            if ka == kb:
+            import collections
+            ca, cb = collections.Counter(ka), collections.Counter(kb)
+            if ca == cb:
                 R.ok(1, sample='%s / %s: %d entries agree' % (a, b, len(ka)))
                 continue
-            sm = difflib.SequenceMatcher(None, ka, kb, autojunk=False)
-            op = next(o for o in sm.get_opcodes() if o[0] != 'equal')
-            ia = sa[min(op[1], len(sa) - 1)][1]
-            ib = sb[min(op[3], len(sb) - 1)][1]
+            # compared as multisets: re-scheduling instructions inside one twin is not a difference; a changed immediate, a dropped or an extra instruction is
+            only_a, only_b = ca - cb, cb - ca
+            ka1 = next((x for x in only_a), None)
+            kb1 = next((x for x in only_b), None)
+            ia = next((i for k, i in sa if k == ka1), sa[0][1])
+            ib = next((i for k, i in sb if k == kb1), sb[0][1])
             ua, fa = F[a]
             ub, fb = F[b]
-            R.fail('%s: %s' % (ua.name, ua.where(ia, fa)), '%s and its twin %s differ: "%s" here, "%s" there (%s): the two versions of the kernel no longer compute the same function, and only one of them is ever '
-                   'exercised on a given machine' % (a, b, ia.text, ib.text, ub.where(ib, fb)), key='R-CRC-TWINS|%s' % a)
+            R.fail('%s: %s' % (ua.name, ua.where(ia, fa)), '%s and its twin %s differ: only %s has %s, only %s has %s ("%s" / "%s" at %s): the two versions of the kernel no longer compute the same function, and only '
+                   'one of them is ever exercised on a given machine' % (a, b, a, dict(only_a) or 'nothing', b, dict(only_b) or 'nothing', ia.text, ib.text, ub.where(ib, fb)), key='R-CRC-TWINS|%s' % a)
